@@ -2301,10 +2301,23 @@ var c08CorruptRegressions = []struct{ name, ops string }{
 	{"failed read, seek to the next page", "s10 r1 s20 r1 r1"},
 }
 
+// on a fixed file of 4 row groups x 25 rows (pages of 10, 10, 5 rows for the id column), for the
+// readers that span row groups
+var c08MultiRGRegressions = []struct{ name, ops string }{
+	{"read into a later row group, seek back into an earlier one, read on across both", "s30 r1 s5 r1 r1 r1 r1 r1 r1 r1 r1"},
+	{"a row group read to its end, seek back, read on", "s50 r1 r1 r1 r1 s26 r1 r1 r1 r1 r1 r1 r1 r1"},
+	{"seek to the end, then to the start, read everything", "s100 r1 s0 r64 r64 r64 r64 r64 r64 r64 r64 r64 r64 r64 r64"},
+	{"seeks to the first row of every row group and one before", "s25 r1 s24 r1 r1 s50 r1 s49 r1 r1 s75 r1 s74 r1 r1 s99 r1 r1"},
+	{"seek inside each row group from the last to the first", "s80 r1 s55 r1 s30 r1 s5 r1 r1 r1 r1 r1 r1 r1 r1 r1 r1 r1 r1 r1"},
+}
+
+var c08MultiRGKinds = []string{"column-pages", "multi-pages", "multi-values", "multi-rows", "nested-pages", "nested-values", "nested-rows",
+	"reader-readrows", "reader-read", "generic-reader"}
+
 var c08T0 = time.Now()
 
 func RunC08(ctx *core.Ctx) {
-	ctx.SetRule("files of catalogue struct types (nested/repeated/optional columns, random rows) under random writer configurations (page version, codec, page buffers from 1 byte = one page per row, several row groups) x open options (page index loaded or skipped, sync/async, read buffer 1..4096) x reader kind (FilePages, value reader, row group rows, Reader.ReadRows/Read, GenericReader, MultiRowGroup rows/pages/values, row range views, buffers) x random histories of up to 200 SeekToRow/read/lazy-index-load ops aimed at the cached page, page boundaries +-1 and the end; distinct by file+view+history; non-trivial = the history seeks backward at least once on a file of >= 2 rows")
+	ctx.SetRule("files of catalogue struct types (nested/repeated/optional columns, random rows) under random writer configurations (page version, codec, page buffers from 1 byte = one page per row, several row groups) x open options (page index loaded or skipped, sync/async, read buffer 1..4096) x reader kind (FilePages, value reader, row group rows, Reader.ReadRows/Read, GenericReader, MultiRowGroup rows/pages/values, MultiRowGroup calls nested to any depth over any sequence of the row groups, Column.Pages() over all row groups, row range views, buffers) x random histories of up to 200 SeekToRow/read/lazy-index-load ops aimed at the cached page, page boundaries +-1 and the end; distinct by file+view+history; non-trivial = the history seeks backward at least once on a file of >= 2 rows")
 	var mu sync.Mutex
 	shrunk := map[string]int{}
 	newWorker := func() *c08Worker {
@@ -2373,6 +2386,27 @@ func RunC08(ctx *core.Ctx) {
 								}
 								w.runCase(g, sp, c08ParseOps(reg.ops), "regression (corrupted page): "+reg.name)
 							}
+						}
+					}
+				}
+			}
+		}
+		// the readers that span row groups, on a fixed file of 4 row groups
+		if mf, err := c08LocalFile(100, parquet.PageBufferSize(80), parquet.MaxRowsPerRowGroup(25)); err != nil {
+			ctx.Fail("L1", "oracle-sequential-read-differs", "fixed 4-row-group file: "+err.Error(), nil)
+		} else {
+			mf.desc += " maxrows=25"
+			for _, reg := range c08MultiRGRegressions {
+				for _, kind := range c08MultiRGKinds {
+					for col := 0; col < 3; col++ { // id, s (dictionary), tags (repeated)
+						for _, nest := range []string{"(((0,1),2),3)", "(0,(1,(2,3)))", "((0,1),(2,3))", "((1,0,(3,(2,2))),1)"} {
+							sp := c08Spec{Kind: kind, Col: col, SkipIndex: col == 1}
+							if strings.HasPrefix(kind, "nested-") {
+								sp.Nest = nest
+							} else if nest != "(((0,1),2),3)" {
+								continue
+							}
+							w.runCase(mf, sp, c08ParseOps(reg.ops), "regression (4 row groups): "+reg.name)
 						}
 					}
 				}
